@@ -196,6 +196,14 @@ Theorem C03_runner_observes_model_state : forall width depth max_key_len bucket,
 Proof. exact HHRunnerProofs.rep_observation. Qed.
 Print Assumptions C03_runner_observes_model_state.
 
+(* the case check the harness evaluates (check_case_strict) decides, for the bucket map observed on this run, the
+   hypothesis `bucket r k < width` under which all of the above is proved *)
+Theorem C03_runner_bucket_below_width : forall (w d L : int) (phi : PrimFloat.float) bm prog,
+  check_case_strict (mkcase w d L phi bm prog) = true ->
+  (forall r k, (bucket_of bm r k < ni w)%nat) /\ check_case (mkcase w d L phi bm prog) = true.
+Proof. exact HHRunnerProofs.check_case_strict_bucket. Qed.
+Print Assumptions C03_runner_bucket_below_width.
+
 (* non-vacuity: a three-operation program on a 2x2 sketch; register 0 after it is eval of the evident history *)
 Example C03_runner_nonvacuous :
   let b := fun (r : nat) (k : key) => ((Z.to_nat (hd 0%Z k) + r) mod 2)%nat in
